@@ -406,6 +406,32 @@ MechS(p, goal, A) ==
                 IF n.c[j].k = "Block" THEN Block(MechB(p \o <<j>>, goal, A)) ELSE n.c[j]]]>>
 MechRewrite(goal) == IF IsStmtPat THEN Block(MechB(<<>>, goal, RopeAccepted)) ELSE Rewrite(goal)
 
+\* Overlapping statement instances (sliding runs such as four `x.append(..)` lines against a two-line
+\* pattern): which of them is replaced is not prescribed, but every instance must be replaced unless
+\* it overlaps one that was - any maximal set of pairwise disjoint instances is acceptable.
+Overlap(m1, m2) ==
+  /\ m1 # m2
+  /\ \/ \E r \in Roots(m2) : Covers(m1, r)
+     \/ \E r \in Roots(m1) : Covers(m2, r)
+MaximalSelections ==
+  {S \in SUBSET AllMatches :
+      /\ \A x \in S, y \in S : ~Overlap(x, y)
+      /\ \A m \in AllMatches \ S : \E x \in S : Overlap(m, x)}
+RECURSIVE SelB(_, _, _), SelS(_, _, _)
+SelB(bp, goal, S) ==
+  LET b == At(mod, bp)
+      RECURSIVE Scan(_)
+      Scan(i) == IF i > Len(b.c) THEN <<>>
+                 ELSE IF [bp |-> bp, i |-> i, n |-> PatLen] \in S
+                      THEN Subst(goal, SigmaOf([bp |-> bp, i |-> i, n |-> PatLen])).c \o Scan(i + PatLen)
+                      ELSE <<SelS(bp \o <<i>>, goal, S)>> \o Scan(i + 1)
+  IN Scan(1)
+SelS(p, goal, S) ==
+  LET n == At(mod, p)
+  IN [n EXCEPT !.c = [j \in DOMAIN n.c |-> IF n.c[j].k = "Block" THEN Block(SelB(p \o <<j>>, goal, S)) ELSE n.c[j]]]
+Alternatives(goal) ==
+  IF IsStmtPat /\ Ambiguous THEN {Block(SelB(<<>>, goal, S)) : S \in MaximalSelections} ELSE {}
+
 ----------------------------------------------------------------------------
 \* Goals built from the pattern's wildcards
 WSeq == LET ws == WildNames(pat)
@@ -546,6 +572,9 @@ MechAgrees ==
 \* NOT an invariant: the mechanism is Rewrite.  TLC refutes it (statement
 \* instances skipped by the visiting order; elif arms detached); used by the
 \* check as a sensitivity run.
+\* the outermost-leftmost choice of Rewrite is one of the acceptable selections
+RewriteIsASelection ==
+  Done => ((IsStmtPat /\ Ambiguous) => \A gl \in Goals : Rewrite(gl.g) \in Alternatives(gl.g))
 MechIsRewrite == Done => \A gl \in Goals : MechRewrite(gl.g) = Rewrite(gl.g)
 MechKeepsIdentity == Done => MechRewrite(pat) = mod
 =============================================================================
